@@ -26,7 +26,8 @@ def contentBytes (l : ListP) : Int :=
 def ListWF (m : Msg) (l : ListP) : Prop :=
   SizeOK l.size ∧ 0 ≤ l.off ∧ 0 ≤ l.length ∧ l.length < 536870912 ∧
   l.off + contentBytes l ≤ m.segLen l.seg ∧ l.off + contentBytes l ≤ 4294967288 ∧
-  (l.flags = 0 ∨ l.flags = isCompositeList ∨ l.flags = isBitList)
+  (l.flags = 0 ∨ l.flags = isCompositeList ∨ l.flags = isBitList) ∧
+  (l.flags = isBitList → l.size.DataSize = 0)
 
 def PtrWF (m : Msg) : Ptr → Prop
   | .null => True
